@@ -391,6 +391,12 @@ fn run(tier: Tier) -> Sink {
             }
         }
     }
+    // a long tight sample against a short spread one: many observations in total but a small
+    // effective dof (the distribution must follow the dof, not the sample sizes)
+    for (na, nb, r) in [(100_000usize, 5usize, 400.0), (4, 120_000, 0.001), (60_000, 60_000, 1.0)] {
+        jobs.push(Job::Unp(two_point(na, 1.0, 1.0), two_point(nb, -0.5, r), false, false));
+        jobs.push(Job::Unp(two_point(na, 1.0, 1.0), two_point(nb, -0.5, r), true, false));
+    }
     for la in 0..=5 {
         for lb in 0..=5 {
             jobs.push(Job::Lengths(la, lb));
